@@ -44,6 +44,11 @@ CHECKS = {
     technique="same TLA+ channel model: action properties 'peer address changes only on an authentic fresh delivery, to its source' and 'a write goes to the current peer address' checked by TLC; behaviours replayed on a real pair with the peer address compared after every step and the destination of every written datagram observed on the wire",
     text="TLC checks the two action properties exhaustively (4 addresses incl. a roamed client address and a third party). In the replay every delivery carries an explicit source address: genuine packets from moving addresses interleaved with bit-flipped, truncated, replayed, reflected and forged copies from other addresses, on both the client and the server end; after each step the address each end would send to is compared with the specification, and each real write's destination is read off the simulated wire.",
     note="Trusted: as C03. IPv6 / zone handling of address equality is not modelled (IPv4 addresses only in the replay)."),
+ "C19": dict(
+    level="model_checking", ref="§3 C19",
+    technique="TLA+ handshake model: action properties 'ClientHello leaves the tables unchanged' and 'a hidden server emits only for a fresh valid hidden request', cookie validity (current key, same address, same client key) as the guard of state allocation, checked by TLC; behaviours with re-addressing, rotation, replays, splices and clock ticks replayed on real servers with table sizes and emitted datagrams compared after every step; mass-hello / cookie mis-binding / hidden-probe traces judged by TLC",
+    text="TLC checks C19Stateless and C19HiddenSilent on all families (single and two concurrent sessions, up to 2 adversary moves). In the replay, after each step the dialled real server's table sizes (handshakes + sessions) and its total number of emitted datagrams are compared with the model's: state appearing at a ClientHello step, state allocated at a ClientAck step where the model's cookie guard fails (other IP, other port, other client key via splice, rotated key, tampered cookie), or any datagram from a hidden-mode server that the model does not emit (discoverable messages, wrong KEM key, stale by 7.1 s, replayed late, tampered, truncated) is a violation. A driver sends 2,000 (thorough 100,000) hellos from distinct addresses, each cookie mis-binding class, and 160+ probe datagrams of every type and length class to a hidden server.",
+    note="Trusted: TLC, simwire, the verif-tag table view and rotation step. The 2-minute rotation ticker itself is not exercised, only the rotation step."),
 }
 
 NOT_YET = {}
